@@ -144,8 +144,9 @@ def replay_case(c):
                 what = "%s %s populations=%s" % (fname, cont, pname)
                 judge = not (fname == "reactive_populations" and not e)
                 # (no state strictly between the sets: 0/0, outside the property)
-                if factor != 1.0 and fname == "reactive_populations" and cont != "dense":
-                    continue
+                if factor != 1.0 and fname != "net_fluxes" and cont != "dense":
+                    continue          # scaled populations: all three functions for the C-ordered ndarray, net_fluxes
+                                      # (which calls reactive_fluxes) for the other containers
                 _call_flux(bad, kinds, fname, cont, what, M, fsrc(src), fsnk(snk), pops, e, shape,
                            factor=1.0 if fname == "reactive_populations" else factor, judge=judge)
     return {"bad": bad, "kinds": kinds}
@@ -196,7 +197,13 @@ def _line_flux_jobs(ctx, d):
         cases = line_cases([n], ["flux"], [(1, 1)], first_id=nid)
         cases[1]["pscale"] = (1, TWO30)
         nid += len(cases)
-        for k, c in enumerate(cases):       # one process per large case
+        if ctx.tier == "quick" and n != 1000:
+            # both placements at 1000 states; 999 and 1200 with scaled populations, 1001 with the stationary
+            # probabilities (populations=None is replayed for those: below 1000 states the code densifies before
+            # its eigen-decomposition, as for the small chains; from 1000 on it uses a sparse solver)
+            cases = cases[:1] if n == 1001 else cases[1:]
+        for c in cases:                     # one process per large case
+            k = 0 if tuple(c["pscale"]) == (1, 1) else 1
             mod = line_module(d, "MCLineFlux%d_%d" % (n, k), [c], base="LineFlux")
             jobs.append(dict(module=mod, cfg=os.path.basename(cfg), cwd=d, workers=1, timeout=1800,
                              java_opts=LINE_JAVA, label="line chain n=%d placement %d pscale=%s, check+emit"
@@ -276,7 +283,7 @@ def run(ctx):
     ctx.rule = ("TLC enumerates every connected symmetric integer matrix with entries 0..MaxX (self-weights "
                 "included) on N states x every disjoint non-empty source/sink pair; each case is replayed with "
                 "populations given and None, dense + sparse containers; distinct by (X, sources, sinks); non-trivial when some "
-                "state lies strictly between the two sets in committor; LineFlux.tla: 8 chains with 999..1200 "
+                "state lies strictly between the two sets in committor; LineFlux.tla: 5 chains with 999..1200 "
                 "states, 20 stiff chains with 4..8 states, every placement on 2..5 states, 9 containers")
     ctx.assumptions += ["LineFlux.tla: reversible nearest-neighbour chains with 999..1200 states, and small ones whose "
                         "weights span up to 8 orders of magnitude; values compared at %g relative per entry (+ %g of "
